@@ -8,6 +8,6 @@ scratch=/tmp/mutconfirm/$id; rm -rf $scratch; mkdir -p /tmp/mutconfirm
 git -C /repo worktree add -q --detach $scratch HEAD && cd $scratch && git apply $d/patch.diff || exit 3
 ( cd $scratch && PYTHONPATH=$scratch /venv/bin/python $d/demo.py > $d/demo_with_patch.txt 2>&1; echo "exit=$?" >> $d/demo_with_patch.txt
   cd /repo && PYTHONPATH=/repo /venv/bin/python $d/demo.py > $d/demo_unchanged.txt 2>&1; echo "exit=$?" >> $d/demo_unchanged.txt
-  cd $scratch && PYTHONPATH=$scratch /venv/bin/python -m pytest -q -p no:cacheprovider --timeout=900 --continue-on-collection-errors -x -k "not test_get_worker_info" > $d/suite_full.log 2>&1
-  tail -1 $d/suite_full.log > $d/suite.txt
+  cd $scratch && PYTHONPATH=$scratch /venv/bin/python -m pytest -q -p no:cacheprovider --timeout=900 --continue-on-collection-errors -x -k "not test_get_worker_info" > /tmp/mutconfirm/$id.suite.log 2>&1
+  tail -1 /tmp/mutconfirm/$id.suite.log > $d/suite.txt
   cd /repo && git worktree remove --force $scratch ) > /dev/null 2>&1 &
